@@ -581,6 +581,7 @@ func init() {
 		e.RClone()
 		e.RClauseSym()
 		e.RHangGuard()
+		e.RColumnOne()
 		e.RFragOrder()
 	})
 	register("C15", Meta{
